@@ -738,9 +738,12 @@ def c02_rate(rp):
 def c02_rate_search(rp, seed):
     rnd = random.Random(seed)
     n = len(rp["game"])
-    for _ in range(300):
-        vec = [enc(rnd.choice([0, 1, 2, 3, 1.5, -2, 2.0])) for _ in range(n)]
+    for k in range(600):
+        vec = [enc(rnd.choice([0, 1, 2, 3, 1.5, -2, 2.0] if k % 2 else [1, 2])) for _ in range(n)]
         r2 = dict(rp, game=rand_game(rnd, [len(x) for x in rp["game"]]))
+        if k % 3 == 0:
+            # brand-new players: every rating identical
+            r2["game"] = [[[enc(25.0), enc(25 / 3)] for _ in t] for t in rp["game"]]
         r2["params"] = dict(mu=enc(25.0), sigma=enc(25 / 3), beta=enc(25 / 6), kappa=enc(1e-4), tau=enc(25 / 300))
         if rp.get("ranks") is not None:
             r2["ranks"] = vec
@@ -1158,6 +1161,14 @@ def c09_win(rp):
                 return True, f"identical teams {i},{k} get {p[i]!r} and {p[k]!r}"
     if n == 2 and rp["game"][0] == rp["game"][1] and p != [0.5, 0.5]:
         return True, f"two identical teams get {p}"
+    if rp.get("alias"):
+        # the same list object in the first and last slot vs value-identical separate lists
+        g1 = mk_game(name, rp["game"][:-1] + [rp["game"][0]])
+        g2 = mk_game(name, rp["game"][:-1] + [rp["game"][0]])
+        g2[-1] = g2[0]
+        pa, pb = m.predict_win(g1), m.predict_win(g2)
+        if any(abs(a - b) > 1e-12 for a, b in zip(pa, pb)) or len(pa) != len(pb):
+            return True, f"{name}.predict_win with one list object in two slots -> {pb}, with equal separate lists -> {pa}"
     # monotonicity in one member's mu
     g2 = mk_game(name, rp["game"])
     g2[0][0].mu += num(rp.get("bump", enc(1.0)))
@@ -1707,6 +1718,32 @@ def c08_gauss_search(rp, seed):
         t = 10 ** rnd.uniform(-8, -2)
         r2 = dict(rp, x=enc(x), t=enc(t))
         bad, msg = c08_gauss(r2)
+        if bad:
+            return r2, msg
+    return None
+
+
+@checker("c14_alias")
+def c14_alias(rp):
+    name = rp["model"]
+    m = mk_model(name, rp["params"])
+    gm = rp["game"][:-1] + [rp["game"][0]]
+    a = mk_game(name, gm)
+    b = mk_game(name, gm)
+    b[-1] = b[0]
+    ra, rb = getattr(m, rp["op"])(a), getattr(m, rp["op"])(b)
+    return ra != rb, f"{name}.{rp['op']}: separate equal objects -> {str(ra)[:90]} ; one list object in two slots -> {str(rb)[:90]}"
+
+
+@searcher("c14_alias")
+def c14_alias_search(rp, seed):
+    rnd = random.Random(seed)
+    for _ in range(100):
+        r2 = dict(rp, game=_rand_pred(rnd, [len(x) for x in rp["game"]]), params=_std_params())
+        try:
+            bad, msg = c14_alias(r2)
+        except Exception:  # noqa: BLE001
+            continue
         if bad:
             return r2, msg
     return None
